@@ -8,7 +8,7 @@ from typing import Optional, Union
 
 from ..exc import ResolverError
 
-from .scalars import Boolean, String
+from .scalars import ID, Boolean, String
 from .types import (
     Argument,
     EnumType,
@@ -327,9 +327,9 @@ def _format_default_value(
     dv = input_value.default_value
     if dv is None:
         return "null"
-    elif isinstance(dv, str) and not isinstance(
-        unwrap_type(input_value.type), EnumType
-    ):
+    elif isinstance(dv, str) and unwrap_type(input_value.type) in (String, ID):
+        # String and ID serialize a string to itself; any other scalar (or an
+        # enum) has to be asked for the wire form of its value below.
         return '"%s"' % "".join(_STRING_ESCAPES.get(c, c) for c in dv)
 
     # Circular imports.
